@@ -36,6 +36,7 @@ package main
 //@   aftercall io.Writer.Write set wfail = wfail || result1 != nil
 //@   aftercall io.Reader).Close set closedOK = result == nil
 //@   atcall os.Remove !wfail && closedOK                                          #source-removed-only-after-complete-output
+//@   atcall os.Remove checkOutputSize && !has(this.ctx, "to") && !has(this.ctx, "from") && has(this.ctx, "outputSize") && istype(this.ctx["outputSize"], "int64") && unbox(this.ctx["outputSize"], "int64") != 0 ==> decoded == unbox(this.ctx["outputSize"], "int64")      #source-removed-only-if-the-size-matches-the-header
 //@   loop 1 invariant !wfail && !closedOK
 //@   loop 2 invariant !wfail && !closedOK
 
